@@ -16,20 +16,27 @@
 (***************************************************************************)
 EXTENDS Schedule, Output, Json, IOUtils
 
-CONSTANTS MaxReal, MaxDummy, MaxId
+CONSTANTS MaxReal, MaxDummy, MaxId,
+          Det     \* TRUE: only actions whose result is fully determined by their arguments, and keep a history for replay
 
 I0 == JsonDeserialize(IOEnv.INSTANCE)
 N == TLCEval(BuildNet(I0))
 TY == "T0"
 
+VehName(i) == "veh_" \o ToString(i)
+DumName(i) == "dummy_" \o ToString(i)
+
 VARIABLES A,        \* abstract schedule [tours, vtype, dum, form]
           cyc,      \* rotation cycles of the single type: set of non-empty sequences
           nextid,   \* id counter (vehicles and dummies share it, as in the implementation)
-          aligned   \* TRUE right after the end depots were aligned with the cycles
-vars == <<A, cyc, nextid, aligned>>
-
-VehName(i) == "veh_" \o ToString(i)
-DumName(i) == "dummy_" \o ToString(i)
+          aligned,  \* TRUE right after the end depots were aligned with the cycles
+          hist      \* (Det only) the calls that led here, for replay on the implementation
+vars == <<A, cyc, nextid, aligned, hist>>
+view == <<A, cyc, nextid, aligned>>
+Log(op, args) == hist' = IF Det THEN Append(hist, [op |-> op, args |-> args]) ELSE hist
+\* the id counter advances only when an id was handed out
+Bump(A2) == IF VehName(nextid) \in RealIds(A2) \/ DumName(nextid) \in DummyIds(A2) THEN nextid + 1 ELSE nextid
+FullPath(p) == N.nd[p[1]].k = "sd" /\ N.nd[Last(p)].k = "ed"
 
 \* all chains of activities that are paths, with the optional depots of a path
 Perms(S) == {s \in [1..Cardinality(S) -> S] : \A i, j \in 1..Cardinality(S) : i # j => s[i] # s[j]}
@@ -61,16 +68,19 @@ Room == Cardinality(RealIds(A)) < MaxReal
 DummyRoom == Cardinality(DummyIds(A)) < MaxDummy
 CycDrop(V) == CycWithout(cyc, V)
 
+PathsFull == TLCEval({<<s>> \o c \o <<e>> : s \in SdNodes(N), c \in Chains, e \in EdNodes(N)})
 Spawn ==
   /\ Fresh /\ Room
-  /\ \E p \in PathsAll :
+  /\ \E p \in (IF Det THEN PathsFull ELSE PathsAll) :
        /\ SpawnPre(N, A, TY, p)
+       /\ Det => CanSpawn(N, A, N.nd[p[1]].depot, TY)      \* no overflow fallback: the result is p itself
        /\ \E X \in SpawnRes(N, A, TY, p, VehName(nextid)) : A' = X
        /\ cyc' = cyc \cup {<<VehName(nextid)>>}
+       /\ Log("spawn_vehicle_for_path", [ty |-> TY, path |-> p])
   /\ nextid' = nextid + 1 /\ aligned' = FALSE
 
 SpawnForDummy ==
-  /\ Fresh /\ Room
+  /\ ~Det /\ Fresh /\ Room /\ UNCHANGED hist
   /\ \E d \in DummyIds(A) :
        LET A0 == [A EXCEPT !.dum = Drop(A.dum, d)]
        IN /\ SpawnPre(N, A0, TY, A.dum[d])
@@ -83,13 +93,15 @@ ReplaceByDummy ==
   /\ \E v \in RealIds(A) :
        /\ A' = ReplaceByDummyRes(N, A, v, DumName(nextid))
        /\ cyc' = CycDrop({v})
-  /\ nextid' = nextid + 1 /\ aligned' = FALSE
+       /\ Log("replace_vehicle_by_dummy", [v |-> v])
+  /\ nextid' = Bump(A') /\ aligned' = FALSE
 
 AddPath ==
   /\ \E v \in RealIds(A), p \in PathsAll :
        /\ AddPathPre(N, A, v, p)
        /\ ActSet(N, p) \cap ActSet(N, A.tours[v]) = {}
        /\ A' = AddPathRes(N, A, v, p)
+       /\ Log("add_path_to_vehicle_tour", [v |-> v, path |-> p])
   /\ UNCHANGED <<cyc, nextid>> /\ aligned' = FALSE
 
 RemoveSegment ==
@@ -99,7 +111,8 @@ RemoveSegment ==
        /\ ActSet(N, Moved(A, v, s, e)) # {}
        /\ A' = RemoveSegRes(N, A, v, s, e, DumName(nextid))
        /\ cyc' = CycDrop(RealIds(A) \ RealIds(A'))
-  /\ nextid' = nextid + 1 /\ aligned' = FALSE
+       /\ Log("remove_segment", [v |-> v, s |-> s, e |-> e])
+  /\ nextid' = Bump(A') /\ aligned' = FALSE
 
 Override ==
   /\ Fresh /\ DummyRoom
@@ -111,10 +124,12 @@ Override ==
        \* (the capacity of a start depot taken over from a deleted provider of the same type is free)
        /\ A' = OverrideRes(N, A, P, R, s, e, DumName(nextid))
        /\ cyc' = CycDrop(RealIds(A) \ RealIds(A'))
-  /\ nextid' = nextid + 1 /\ aligned' = FALSE
+       /\ Log("override_reassign", [p |-> P, r |-> R, s |-> s, e |-> e])
+  /\ nextid' = Bump(A') /\ aligned' = FALSE
 
 \* improve_depots of one vehicle: some start depot with free capacity, some end depot
 ImproveDepots ==
+  /\ ~Det /\ UNCHANGED hist
   /\ \E v \in RealIds(A) :
        LET t  == A.tours[v]
            A0 == [A EXCEPT !.tours = Drop(A.tours, v), !.vtype = Drop(A.vtype, v)]   \* v's slot is free
@@ -126,6 +141,7 @@ ImproveDepots ==
 \* recompute_transitions: some partition (here: one cycle in id order, or all singletons)
 OneCycle == IF RealIds(A) = {} THEN {} ELSE {SetToSortSeq(RealIds(A), LAMBDA x, y : TRUE)}
 Recompute ==
+  /\ ~Det /\ UNCHANGED hist
   /\ cyc' \in {OneCycle, {<<v>> : v \in RealIds(A)}}
   /\ UNCHANGED <<A, nextid>> /\ aligned' = FALSE
 
@@ -135,9 +151,10 @@ Align ==
   /\ A' = [A EXCEPT !.tours = [v \in RealIds(A) |->
               SubSeq(A.tours[v], 1, Len(A.tours[v]) - 1)
                 \o <<N.depots[StartDepot(N, A.tours[SuccIn(cyc, v)])].en>>]]
+  /\ Log("reassign_end_depots_consistent_with_transitions", [none |-> 0])
   /\ aligned' = TRUE /\ UNCHANGED <<cyc, nextid>>
 
-Init == A = EmptySchedule(N) /\ cyc = {} /\ nextid = 0 /\ aligned = FALSE
+Init == A = EmptySchedule(N) /\ cyc = {} /\ nextid = 0 /\ aligned = FALSE /\ hist = << >>
 Next == Spawn \/ SpawnForDummy \/ ReplaceByDummy \/ AddPath \/ RemoveSegment \/ Override
           \/ ImproveDepots \/ Recompute \/ Align
 Spec == Init /\ [][Next]_vars
@@ -175,4 +192,7 @@ OutputFromInv ==
      /\ CyclesPartition(O)
 \* ... and, once end depots are aligned, cyclically repeatable
 OutputWhenAligned == aligned => (CyclesAligned(Projection) /\ DepotsBalanced(N, Projection))
+\* every explored state with one history of fully determined calls reaching it (replayed on the
+\* real Schedule; the observed abstract state must equal the model state)
+EmitCase == Det => PrintT(<<"CASE", ToJson([hist |-> hist, A |-> A, cyc |-> SetToSeq(cyc)])>>)
 =============================================================================
